@@ -50,6 +50,8 @@ def match_conc(prop, clause, rec):
             continue
         if any(rec.get(k) != v for k, v in m.get('record', {}).items()):
             continue
+        if 'has_op' in m and ('prog' not in rec or m['has_op'] not in _ops(rec['prog'])):
+            continue
         return f
     return None
 
